@@ -462,8 +462,13 @@ SUBS = [
     Sub("addrgroup", judge_addrgroup, strategy=addrgroup_case_st, quick=1000, thorough=30000),
 ]
 
+# coverage-guided twins (fuzz/fuzz_hyp.py): atheris mutates the bytes Hypothesis decodes into cases of the same strategy
+SUBS += [__import__("lib.harness", fromlist=["x"]).cov_sub('C02', s_) for s_ in list(SUBS) if s_.name in ('ace',)]
+
 MANIFEST = {
     "technique": "translation validation by property-based testing: each generated ACL / ACE / address / address group is converted by the library and the converted text is validated against the source program with an independent strict reader of the target platform's syntax",
     "text": "translation validation: every generated program's conversion was validated (same ordered rule list by meaning with eq-splits as equal-union runs, remarks / name / numbers / group members kept, strict target syntax, there-back-there text equality, library re-read fixpoint); thousands (quick) / 180 000 (thorough) programs in both directions under all switch settings",
     "note": "trusted: lib/refsem.py strict syntax + meaning; name tables from the library (pinned by C09); multi-port neq is excluded here and owned by C19; refusals accepted only where the target cannot express the input",
 }
+MANIFEST["engine"] += " + atheris (coverage-guided twins of the Hypothesis sub-checks, fuzz/fuzz_hyp.py: 2 jobs x 8 s quick, 8 jobs x 200 s thorough)"
+MANIFEST["technique"] += "; plus coverage-guided fuzzing of the same strategies (atheris/libFuzzer mutates the byte stream Hypothesis decodes into cases, the same oracle runs inside the target, findings are re-judged outside it)"
